@@ -122,7 +122,8 @@ def load_descriptor(vm, n_blobs):
         if vm.new_bool('has_hash'):
             d['blob_hash'] = HASHES[i]
         blobs.append(d)
-    honest = vm.new_bool('stream_hash_is_the_commitment')
+    kind = vm.pick('stream_hash_kind', 5)            # the commitment / another 48-byte value / '' / null / 0
+    honest = kind == 0
     decoded = {'stream_type': 'lbryfile', 'stream_name': '6e616d65', 'key': '11' * 16, 'suggested_file_name': '6e616d65',
                'blobs': blobs, 'stream_hash': None}
     consistent = (blobs[-1]['length'] == 0 and 'blob_hash' not in blobs[-1])
@@ -137,10 +138,12 @@ def load_descriptor(vm, n_blobs):
         commitment = 'c0' * 48          # a data blob without a hash has no well-defined commitment; any value will do
     if honest:
         decoded['stream_hash'] = commitment
-    else:
+    elif kind == 1:
         other = vm.new_bytes('other_stream_hash', 48).hex()
         vm.assume(other != commitment)
         decoded['stream_hash'] = other
+    else:
+        decoded['stream_hash'] = ('', None, 0)[kind - 2]
     ENV[0].set_json(decoded)
     blob = StubBlob()
     try:
@@ -382,10 +385,10 @@ def jobs(tier):
     out.append(dict(name='chunking', family='chunking', fn='chunking', args=(3 if tier == 'quick' else 5,), loop_bound=50, max_depth=50,
                     cost=100, bounds=dict(file_size=f'0 .. {3 if tier == "quick" else 5} * (2 MiB - 1), symbolic', content='opaque run'),
                     must_reach=('ok-0-chunks', 'ok-1-chunks', 'ok-2-chunks', 'ok-3-chunks')))
-    for n in ((1, 2, 3) if tier == 'quick' else (1, 2, 3, 4)):
+    for n in ((1, 2) if tier == 'quick' else (1, 2, 3)):     # 4 entries: 194 000 paths in 28 min, explorers ran out of memory - not registered
         out.append(dict(name=f'load-descriptor-{n}-blobs', family='load', fn='load_descriptor', args=(n,), loop_bound=100, max_depth=60,
                         cost=100 * 8 ** n, bounds=dict(blob_entries=n, lengths='symbolic', numbers='symbolic', hashes='present or absent',
-                                                       stream_hash='the commitment or another value'),
+                                                       stream_hash='the commitment, another 48-byte value, empty string, null or 0'),
                         must_reach=('ok-loaded', 'ok-refused')))
     out.append(dict(name='load-descriptor-bad-json', family='load', fn='bad_json', args=(), loop_bound=100, max_depth=60, cost=5,
                     bounds=dict(json='undecodable'), must_reach=('ok-refused',)))
